@@ -3112,81 +3112,137 @@ pub mod verif {
         out
     }
 
-    // ---- encoding stand-in for build_moov_box (used with kani::stub) -----------
-    // It does not write any global state (CBMC 6.11 reports spurious pointer failures
-    // in unrelated vectors when a stubbed-in function writes a `static mut`); instead
-    // the tables it is given are serialised into the returned bytes, which travel
-    // through finalize to the sink like the real moov would.
-    //
-    // Layout: 0xA5, metadata_present, audio_present, then one table block per track:
-    //   n, n_chunks, samples_per_chunk(u32), has_bframes, n_keyframes,
-    //   chunk_offsets[n_chunks](u32), sizes[n](u32), durations[n](u32),
-    //   cts_offsets[n](i32), keyframes[n_keyframes](u32)
-    // followed by MOOV_STUB_PAD zero bytes.
-    pub static mut MOOV_STUB_PAD: usize = 0;
+    // ---- recording stand-in for build_moov_box (used with kani::stub) -----------
+    // It must not assign a global or write through a global pointer: with CBMC 6.11 either
+    // makes constant propagation collapse in the caller (spurious pointer failures, lost
+    // vector lengths). Instead the harness passes its `Mp4VideoTrack` as the first field of
+    // a `MoovCarrier`, and the stand-in records into the carrier it reaches from that very
+    // argument (a pointer with a precise target). MOOV_USE_CARRIER is only read here.
+    pub const MOOV_REC_MAX: usize = 4;
+    #[derive(Clone, Copy, Debug, PartialEq, Eq)]
+    pub struct TableRec {
+        pub n: usize,
+        pub n_chunks: usize,
+        pub samples_per_chunk: u32,
+        pub has_bframes: bool,
+        pub n_keyframes: usize,
+        pub chunk_offsets: [u32; MOOV_REC_MAX],
+        pub sizes: [u32; MOOV_REC_MAX],
+        pub durations: [u32; MOOV_REC_MAX],
+        pub cts_offsets: [i32; MOOV_REC_MAX],
+        pub keyframes: [u32; MOOV_REC_MAX],
+    }
+    impl TableRec {
+        pub const EMPTY: TableRec = TableRec {
+            n: 0,
+            n_chunks: 0,
+            samples_per_chunk: 0,
+            has_bframes: false,
+            n_keyframes: 0,
+            chunk_offsets: [0; MOOV_REC_MAX],
+            sizes: [0; MOOV_REC_MAX],
+            durations: [0; MOOV_REC_MAX],
+            cts_offsets: [0; MOOV_REC_MAX],
+            keyframes: [0; MOOV_REC_MAX],
+        };
+    }
+    #[derive(Clone, Copy, Debug, PartialEq, Eq)]
+    pub struct MoovCall {
+        pub metadata_present: bool,
+        pub audio_present: bool,
+        pub video: TableRec,
+        pub audio: TableRec,
+    }
+    impl MoovCall {
+        pub const EMPTY: MoovCall = MoovCall {
+            metadata_present: false,
+            audio_present: false,
+            video: TableRec::EMPTY,
+            audio: TableRec::EMPTY,
+        };
+    }
+    #[repr(C)]
+    pub struct MoovCarrier {
+        pub track: Mp4VideoTrack,
+        pub calls: core::cell::Cell<usize>,
+        pub call0: core::cell::Cell<MoovCall>,
+        pub call1: core::cell::Cell<MoovCall>,
+        pub stub_len: usize,
+    }
+    impl MoovCarrier {
+        pub fn new(width: u32, height: u32, stub_len: usize) -> Self {
+            MoovCarrier {
+                track: Mp4VideoTrack { width, height },
+                calls: core::cell::Cell::new(0),
+                call0: core::cell::Cell::new(MoovCall::EMPTY),
+                call1: core::cell::Cell::new(MoovCall::EMPTY),
+                stub_len,
+            }
+        }
+    }
+    pub static mut MOOV_USE_CARRIER: bool = false;
 
-    pub fn moov_stub_table_len(n: usize, n_chunks: usize, n_keyframes: usize) -> usize {
-        8 + 4 * n_chunks + 12 * n + 4 * n_keyframes
+    fn rec(t: &SampleTables) -> TableRec {
+        let mut r = TableRec::EMPTY;
+        r.n = t.sizes.len();
+        r.n_keyframes = t.keyframes.len();
+        r.n_chunks = t.chunk_offsets.len();
+        r.samples_per_chunk = t.samples_per_chunk;
+        r.has_bframes = t.has_bframes;
+        let mut i = 0;
+        while i < MOOV_REC_MAX {
+            if i < t.durations.len() {
+                r.durations[i] = t.durations[i];
+            }
+            if i < t.sizes.len() {
+                r.sizes[i] = t.sizes[i];
+            }
+            if i < t.keyframes.len() {
+                r.keyframes[i] = t.keyframes[i];
+            }
+            if i < t.chunk_offsets.len() {
+                r.chunk_offsets[i] = t.chunk_offsets[i];
+            }
+            if i < t.cts_offsets.len() {
+                r.cts_offsets[i] = t.cts_offsets[i];
+            }
+            i += 1;
+        }
+        r
     }
 
-    pub const MOOV_STUB_MAX: usize = 192;
-
-    fn put32(buf: &mut [u8; MOOV_STUB_MAX], p: &mut usize, x: u32) {
-        let b = x.to_be_bytes();
-        buf[*p] = b[0];
-        buf[*p + 1] = b[1];
-        buf[*p + 2] = b[2];
-        buf[*p + 3] = b[3];
-        *p += 4;
-    }
-
-    fn encode_tables(buf: &mut [u8; MOOV_STUB_MAX], p: &mut usize, t: &SampleTables) {
-        buf[*p] = t.sizes.len() as u8;
-        buf[*p + 1] = t.chunk_offsets.len() as u8;
-        *p += 2;
-        put32(buf, p, t.samples_per_chunk);
-        buf[*p] = t.has_bframes as u8;
-        buf[*p + 1] = t.keyframes.len() as u8;
-        *p += 2;
-        for x in &t.chunk_offsets {
-            put32(buf, p, *x);
-        }
-        for x in &t.sizes {
-            put32(buf, p, *x);
-        }
-        for x in &t.durations {
-            put32(buf, p, *x);
-        }
-        for x in &t.cts_offsets {
-            put32(buf, p, *x as u32);
-        }
-        for x in &t.keyframes {
-            put32(buf, p, *x);
-        }
-    }
-
-    /// Same signature as `build_moov_box`.
-    pub fn moov_encoding_stub(
-        _video: &Mp4VideoTrack,
+    /// Same signature as `build_moov_box`. Returns a vector tagged 0xA5 in its first byte.
+    pub fn moov_recording_stub(
+        video: &Mp4VideoTrack,
         video_tables: &SampleTables,
         audio: Option<(&Mp4AudioTrack, &SampleTables)>,
         _video_config: &VideoConfig,
         metadata: Option<&Metadata>,
     ) -> Vec<u8> {
-        let pad = unsafe { MOOV_STUB_PAD };
-        let mut buf = [0u8; MOOV_STUB_MAX];
-        let mut p = 3usize;
-        buf[0] = 0xA5;
-        buf[1] = metadata.is_some() as u8;
-        buf[2] = audio.is_some() as u8;
-        encode_tables(&mut buf, &mut p, video_tables);
-        if let Some((_, t)) = audio {
-            encode_tables(&mut buf, &mut p, t);
+        let mut len = 8;
+        if unsafe { MOOV_USE_CARRIER } {
+            // SAFETY (harness contract): `video` is the first field of a live MoovCarrier.
+            let c = unsafe { &*(video as *const Mp4VideoTrack as *const MoovCarrier) };
+            let mut call = MoovCall::EMPTY;
+            call.metadata_present = metadata.is_some();
+            call.video = rec(video_tables);
+            if let Some((_, t)) = audio {
+                call.audio_present = true;
+                call.audio = rec(t);
+            }
+            if c.calls.get() == 0 {
+                c.call0.set(call);
+            } else if c.calls.get() == 1 {
+                c.call1.set(call);
+            }
+            c.calls.set(c.calls.get() + 1);
+            len = c.stub_len;
         }
-        // one zero-initialised allocation of the final size, one copy of the encoded prefix
-        let mut out = vec![0u8; p + pad];
-        out[..p].copy_from_slice(&buf[..p]);
-        out
+        let mut v = vec![0u8; len];
+        if len > 0 {
+            v[0] = 0xA5;
+        }
+        v
     }
 
     // ---- call-through wrappers -------------------------------------------------
